@@ -107,3 +107,20 @@ Theorem C07_export_injective_unitriangular : forall norb (c : code) a b a' b' s 
   det_conv norb a b = det_conv norb a' b'.
 Proof. exact export_det_injective_unitri. Qed.
 Print Assumptions C07_export_injective_unitriangular.
+
+(* every linear code with a CERTIFIED left inverse is injective (CodeInv.v): `left_inv dc c n` checks the candidate decoder
+   matrix dc on the n unit vectors; by linearity of the encoder that decides it on all 2^n occupation vectors.  The
+   correspondence finds dc by GF(2) elimination and has the extracted `left_inv` certify it for every code it exports
+   with (library codes, interleaved, permutation and unitriangular families), so the theorem applies to each of them. *)
+From FQE Require Import CodeInv.
+Theorem C07_certified_left_inverse_is_left_inverse : forall (dc c : code) n, left_inv dc c n = true ->
+  forall e, length e = n -> encode dc (encode c e) = e.
+Proof. exact left_inv_sound. Qed.
+Print Assumptions C07_certified_left_inverse_is_left_inverse.
+
+Theorem C07_export_injective_certified_inverse : forall norb (c dc : code) a b a' b' s s' ix,
+  left_inv dc c (2 * norb) = true ->
+  export_det norb c a b = Some (s, ix) -> export_det norb c a' b' = Some (s', ix) ->
+  det_conv norb a b = det_conv norb a' b'.
+Proof. exact export_det_injective_left_inv. Qed.
+Print Assumptions C07_export_injective_certified_inverse.
